@@ -90,6 +90,16 @@ def run(R, job):
         checked += 1
         if not same(t.attrs, exp):
             fails.append({"input": f"attrs {before!r} [{k!r}] = {v!r}", "observed": repr(dict(t.attrs)), "expected": repr(exp)})
+        # dict subclasses (another tag's attribute map, OrderedDict) are attribute dicts too, in the constructor and in consolidate_attrs alike
+        if len(fails) < 3:
+            import collections
+            other = core.Tag("i", {"class": "a", "id": "o"})
+            od = collections.OrderedDict([("data_x", "1")])
+            a2, ch2 = core.consolidate_attrs(other.attrs, "kid", od, class_="c")
+            t2 = core.Tag("div", other.attrs, "kid", od, class_="c")
+            checked += 1
+            if list(a2.items()) != list(t2.attrs.items()) or list(ch2) != ["kid"] or str(core.Tag("div", a2, *ch2)) != str(t2):
+                fails.append({"input": "consolidate_attrs(other.attrs, 'kid', OrderedDict(data_x='1'), class_='c')", "observed": repr((a2, ch2))[:300], "expected": repr((dict(t2.attrs), ["kid"]))})
         # consolidate_attrs
         a, ch = core.consolidate_attrs(*mixed, **kw)
         checked += 1
